@@ -400,4 +400,62 @@ example : (sumFmt ⟨true, 4, 0⟩ 4).InRange (-32) := by unfold Fmt.InRange Fmt
 example : prodL [-8, -8] = 64 ∧ (prodFmt ⟨true, 4, 0⟩ 2).InRange 64 := by
   unfold Fmt.InRange Fmt.lo Fmt.hi; decide +kernel
 
+/-! ### matmul -/
+
+/-- a column of a rectangular matrix: taking entry `j` of every row keeps one entry per row. -/
+theorem column_spec (b : List (List ℤ)) (m j : ℕ) (hj : j < m) (hb : ∀ row ∈ b, row.length = m) :
+    (b.filterMap (fun row => row[j]?)).length = b.length ∧
+      ∀ c ∈ b.filterMap (fun row => row[j]?), ∃ row ∈ b, c ∈ row := by
+  induction b with
+  | nil => simp
+  | cons r rest ih =>
+    have hr : r.length = m := hb r (by simp)
+    have hrest : ∀ row ∈ rest, row.length = m := fun row h => hb row (by simp [h])
+    obtain ⟨ihl, ihm⟩ := ih hrest
+    have hsome : r[j]? = some (r[j]'(by omega)) := List.getElem?_eq_getElem (by omega)
+    simp only [List.filterMap_cons, hsome, List.length_cons, ihl, true_and]
+    intro c hc
+    rcases List.mem_cons.mp hc with h | h
+    · exact ⟨r, by simp, by rw [h]; exact List.getElem_mem _⟩
+    · obtain ⟨row, hrow, hcr⟩ := ihm c h
+      exact ⟨row, by simp [hrow], hcr⟩
+
+/-- **matmul never overflows**: every entry of the product of an `r×k` by a `k×m` matrix is the dot product of a row and a column
+and fits the format `dot` uses, `clog2 k + n_x + n_y` bits (the format `np.matmul` / `@` return since D66). -/
+theorem matmul_fits (x y : Fmt) (hx : x.WF) (hy : y.WF) (hpos : 0 < x.nword + y.nword) (a b : List (List ℤ)) (k m : ℕ) (hk : 0 < k)
+    (ha : ∀ row ∈ a, row.length = k ∧ ∀ c ∈ row, x.InRange c)
+    (hbl : b.length = k) (hb : ∀ row ∈ b, row.length = m ∧ ∀ c ∈ row, y.InRange c) :
+    ∀ row ∈ matmulL a b, ∀ e ∈ row, (dotFmt x y k).InRange e := by
+  intro row hrow e he
+  unfold matmulL at hrow
+  simp only [List.mem_map] at hrow
+  obtain ⟨r, hr, rfl⟩ := hrow
+  simp only [List.mem_map] at he
+  obtain ⟨col, hcol, rfl⟩ := he
+  obtain ⟨hrl, hrr⟩ := ha r hr
+  -- the column
+  have hcolspec : col.length = k ∧ ∀ c ∈ col, y.InRange c := by
+    cases b with
+    | nil => simp at hbl; omega
+    | cons r0 rest =>
+      unfold transposeL at hcol
+      simp only [List.mem_map, List.mem_range] at hcol
+      obtain ⟨j, hj, rfl⟩ := hcol
+      have hr0 : r0.length = m := (hb r0 (by simp)).1
+      obtain ⟨hl, hm⟩ := column_spec (r0 :: rest) m j (by omega) (fun row h => (hb row h).1)
+      refine ⟨by rw [hl]; exact hbl, ?_⟩
+      intro c hc
+      obtain ⟨row, hrow, hcr⟩ := hm c hc
+      exact (hb row hrow).2 c hcr
+  have hne : r ≠ [] := by
+    intro h0; rw [h0] at hrl; simp at hrl; omega
+  have := dot_fits x y hx hy hpos r col (by rw [hrl, hcolspec.1]) hne hrr hcolspec.2
+  rw [hrl] at this
+  exact this
+
+example : matmulL [[1, 2], [3, 4]] [[5, 6], [7, 8]] = [[19, 22], [43, 50]] := by decide +kernel
+example : matmulL [[-8, -8], [-8, -8]] [[-8, -8], [-8, -8]] = [[128, 128], [128, 128]] ∧ (dotFmt ⟨true, 4, 0⟩ ⟨true, 4, 0⟩ 2).InRange 128 := by
+  unfold Fmt.InRange Fmt.lo Fmt.hi; decide +kernel
+
+
 end Fxp.C15
